@@ -73,7 +73,7 @@ func checkC17(c *Ctx) {
 		Constraint: "Constr", View: "View", Invariants: []string{"InvCanonical"}, Properties: []string{"FailedIsNoop", "Frame"}}, 12, 20*time.Minute, false)
 	per := 25
 	if !c.Quick() {
-		per = 500
+		per = 1200
 	}
 	gens := []func(*rand.Rand) []bt.Op{
 		func(r *rand.Rand) []bt.Op { return genMutationProgram(r, 20+r.Intn(25)) },
